@@ -28,6 +28,7 @@ def actions(size, rng):
 
 class Check(PropCheck):
     pid = 'C03'
+    pure_predicate = True
     tol = None
     rule = ('exhaustive edit histories (every op x every argument incl. out-of-range / removed / equal ids) to depth 2 '
             '(quick) / 3 (thorough) from every small start tree (parsed, API-built, generated, UPGMA), plus random walks with '
